@@ -52,15 +52,20 @@ class Scenario:
         self._seen_c = 0
         self._seen_s = 0
         self.stop = False
+        self.bare = set()        # ends that handled a frame with a bare `deliver` and had no real round since
         self.wrote = {}          # (flow, 'app'|'dst') -> bytes written by the endpoint (harness log)
 
     # ---- bookkeeping of frames put on the wire (for the C09 oracle)
     def note_wire(self):
         pass
 
-    def do(self, st):
+    def do(self, st, internal=False):
         if self.stop:
             return
+        if st[0] == 'deliver' and not internal:
+            self.bare.add(st[1])
+        elif st[0] == 'round' and st[2] > 0:
+            self.bare.discard(st[1])     # the real loop gave every Proxy of that end its callback after the frames
         if not self.s.do(st):
             self.stop = True
 
@@ -180,13 +185,15 @@ class Scenario:
         # The scripted / random phase before a drain may have handled a frame with a bare `deliver` step.  In the real
         # loop a frame is always handled inside a round in which every Proxy then gets a callback (the tunnel's read
         # file is in every Proxy's socks); give that follow-up once, so that the drain starts from a state the real
-        # loop can be in.
-        for end in ('c', 's'):
+        # loop can be in.  A scenario that handled frames only through real rounds gets no such extra callback: a
+        # wake-up the code relies on without asking for it is then simply not there.
+        for end in sorted(self.bare):
             for i, f in enumerate(t.flows):
                 p = f.sproxy if end == 's' else f.cproxy
                 hl = t.shandlers if end == 's' else t.chandlers
                 if p is not None and p in hl:
                     self.do(('cb', end, i, full))
+        self.bare.clear()
         for rnd in range(max_rounds):
             if self.stop:
                 return False
@@ -203,7 +210,7 @@ class Scenario:
                         # the round stopped in front of a CONNECT (it needs a scripted connect result)
                         (_a, _b, _chan, cmd, _n) = struct.unpack('!ccHHH', src.outbuf[0][:8])
                         if cmd == t.ssnet.CMD_TCP_CONNECT:
-                            self.do(('deliver', end, 'ok'))
+                            self.do(('deliver', end, 'ok'), internal=True)
                             continue
                     break
                 if o.latency:
@@ -348,6 +355,15 @@ def oracle_quiet(ctx, sc, prop):
         report(ctx, sc, '%s:stuck:quiescent-state-not-quiet' % prop, 0, 'quiescence',
                'buffers empty, nothing to read, every flag propagated', t.show()[:600])
         return False
+    # C02_quiet_complete, read off the real objects: at rest every close has reached the other endpoint's socket
+    for i, f in enumerate(t.flows):
+        if i in sc.faulty or not f.s_ever or f.connect_aborted:
+            continue
+        for src, dst, name in ((f.app, f.dst, 'destination'), (f.dst, f.app, 'application')):
+            if src.eof_in and not dst.saw_shut:
+                report(ctx, sc, '%s:stuck:close-not-propagated-at-rest' % prop, i, 'quiescence',
+                       'the %s socket shut down after the other endpoint closed' % name, 'not shut; ' + t.show()[:400])
+                return False
     return True
 
 
@@ -502,7 +518,7 @@ def oracle_ids_consistent(ctx, sc, prop):
     return True
 
 
-def burst_in_one_read(ctx, rng, prop, nwrites, bufsize=32768, latency=False):
+def burst_in_one_read(ctx, rng, prop, nwrites, bufsize=32768, latency=False, dst_closes=True):
     """Many small frames (several flows, tiny writes, their EOFs) reach the peer in ONE read of the tunnel and then
     the tunnel goes quiet: the one wake-up must handle all of them, nothing may stay undecoded in the Mux."""
     o = Opts(nflows=3, steps=0, bufsize=bufsize, latency=latency)
@@ -531,14 +547,16 @@ def burst_in_one_read(ctx, rng, prop, nwrites, bufsize=32768, latency=False):
             report(ctx, sc, '%s:burst:frames-left-undecoded-after-the-wake-up' % prop, 0, 'one read of %d frames' % n,
                    'every complete frame handled in the wake-up that read it', '%d bytes left in the Mux' % len(t.smux.inbuf))
             return sc.s.ins, sc.s.outs
-        for i in range(3):
-            sc.do(('de', i))
+        if dst_closes:
+            for i in range(3):
+                sc.do(('de', i))
         q = sc.drain()
         if not sc.stop:
             oracle_prefix(ctx, sc, prop, 'burst')
             oracle_complete(ctx, sc, prop, q)
             if q:
                 oracle_teardown(ctx, sc, prop)
+                oracle_quiet(ctx, sc, prop)
         oracle_alive(ctx, sc, prop, 'run')
         return sc.s.ins, sc.s.outs
     finally:
